@@ -8,6 +8,7 @@ use customasm::*;
 #[path = "/repo/src/driver.rs"]
 pub mod driver;
 
+pub mod corpus;
 pub mod props;
 pub mod refasm;
 pub mod refparse;
